@@ -2364,7 +2364,34 @@ impl Reference
 			};
 		}
 
-		let member = member.map(|member| (member, value_type.clone()));
+		// The member is assigned through the steps that follow it,
+		// so `s.arr[2] = 7` says that `arr` is an array of integers.
+		let member = member.map(|member| {
+			let steps_after_member = match steps
+				.iter()
+				.rposition(|step| step.get_member().is_some())
+			{
+				Some(i) => &steps[(i + 1)..],
+				None => &steps[..],
+			};
+			let member_type = build_type_of_reference(
+				value_type.clone(),
+				steps_after_member,
+				false,
+			);
+			// If those steps cannot be taken on any type (such as indexing
+			// into an array of array views), the conflict is reported
+			// between the member and the assigned value itself.
+			let member_type = match member_type
+			{
+				Some(Ok(built)) if !built.is_wellformed() =>
+				{
+					value_type.clone()
+				}
+				member_type => member_type,
+			};
+			(member, member_type)
+		});
 
 		let full_type = build_type_of_reference(value_type, &steps, false);
 		let assignment_error = match typer.put_symbol(base, full_type)
